@@ -17,6 +17,8 @@ func main() {
 		os.Exit(2)
 	}
 	switch os.Args[1] {
+	case "audit":
+		os.Exit(engine.Audit(load()))
 	case "vc":
 		vcCmd(os.Args[2:])
 	case "list":
